@@ -1,5 +1,5 @@
 // C03: FdEvent on both back-ends (engine H, fork per evaluation, ASan, per-fd record pools de-pooled).
-// usage: harness <config 0..4> <depth> <script_first> <script_last>
+// usage: harness <config 0..5> <depth> <script_first> <script_last>
 #include "hist/hist.h"
 #include <tbox/event/loop.h>
 #include <tbox/event/fd_event.h>
@@ -12,21 +12,23 @@
 using namespace tbox::event;
 
 enum K { ENABLE, DISABLE, FEED, DRAIN, PASS };
-enum A { NONE, DIS_SELF, DIS_TGT, DESTROY_TGT, ENABLE_TGT, DESTROY_TGT_NEW, DESTROY_TGT_CLOSE };
+enum A { NONE, DIS_SELF, DIS_TGT, DESTROY_TGT, ENABLE_TGT, DESTROY_TGT_NEW, DESTROY_TGT_CLOSE, DIS_TGT_EN_THIRD, DESTROY_TGT_EN_THIRD };
 static const char *kN[] = {"enable", "disable", "feed", "drain", "pass"};
-static const char *aN[] = {"none", "disable-self", "disable", "destroy", "enable", "destroy+new-event-on-3rd-fd", "destroy+close-fd"};
+static const char *aN[] = {"none", "disable-self", "disable", "destroy", "enable", "destroy+new-event-on-3rd-fd", "destroy+close-fd", "disable+enable-the-third-event", "destroy+enable-the-third-event"};
 struct Op { int k, a; };
 struct Script { int e, act, tgt; };
 static const int NE = 3;
 struct EvCfg { int d; short mask; bool oneshot; };
 // descriptors: 0,1,2 = read ends of pipes (config 2: descriptor 0 = one end of a socketpair)
-static const EvCfg CFG[5][NE] = {
+static const EvCfg CFG[6][NE] = {
   {{0, FdEvent::kReadEvent, false}, {0, FdEvent::kReadEvent, true}, {1, FdEvent::kReadEvent, false}},
   {{0, FdEvent::kReadEvent, false}, {1, FdEvent::kReadEvent, false}, {1, FdEvent::kReadEvent, true}},
   {{0, (short)(FdEvent::kReadEvent | FdEvent::kWriteEvent), false}, {0, FdEvent::kWriteEvent, true}, {1, FdEvent::kReadEvent, false}},
   // different masks on one descriptor, the one-shot subscribing to the condition that is NOT always ready:
   {{0, FdEvent::kWriteEvent, false}, {0, FdEvent::kReadEvent, true}, {1, FdEvent::kReadEvent, false}},
   {{0, FdEvent::kReadEvent, true}, {0, FdEvent::kWriteEvent, true}, {0, (short)(FdEvent::kReadEvent | FdEvent::kWriteEvent), false}},
+  // three read events on ONE descriptor (a callback can remove one subscriber and add another in the same pass)
+  {{0, FdEvent::kReadEvent, false}, {0, FdEvent::kReadEvent, false}, {0, FdEvent::kReadEvent, false}},
 };
 struct Call { int e; short m; };
 struct World {
@@ -56,6 +58,9 @@ static void on_cb(World &w, const Script &sc, int e, short m) {
     case DIS_SELF: w.ev[e]->disable(); w.en[e] = false; break;
     case DIS_TGT: if (w.alive[t]) { w.ev[t]->disable(); w.en[t] = false; } break;
     case ENABLE_TGT: if (w.alive[t]) { w.ev[t]->enable(); w.en[t] = true; } break;
+    case DIS_TGT_EN_THIRD: case DESTROY_TGT_EN_THIRD: { int third = 3 - e - t;      // the event that is neither the running one nor the target
+      if (t != e && w.alive[t]) { if (sc.act == DIS_TGT_EN_THIRD) { w.ev[t]->disable(); w.en[t] = false; } else { w.alive[t] = false; w.en[t] = false; delete w.ev[t]; w.ev[t] = nullptr; } }
+      if (third >= 0 && third < NE && third != e && w.alive[third]) { w.ev[third]->enable(); w.en[third] = true; } } break;
     case DESTROY_TGT: case DESTROY_TGT_NEW: case DESTROY_TGT_CLOSE:
       if (w.alive[t] && t != e) { w.alive[t] = false; w.en[t] = false; delete w.ev[t]; w.ev[t] = nullptr;
         if (sc.act == DESTROY_TGT_CLOSE && !w.closed[w.d[t]]) { bool shared = false; for (int x = 0; x < NE; x++) if (w.alive[x] && w.d[x] == w.d[t]) shared = true; if (!shared) { close(w.rd[w.d[t]]); w.closed[w.d[t]] = true; } }
@@ -67,7 +72,7 @@ static void on_cb(World &w, const Script &sc, int e, short m) {
 static std::string run_engine(const char *eng, int cfg, const Script &sc, const std::vector<Op> &h, World &w) {
   w.loop = Loop::New(eng);
   if (!strcmp(eng, "epoll")) static_cast<EpollLoop *>(w.loop)->fd_shared_data_pool_.keep_number_ = 0; else static_cast<SelectLoop *>(w.loop)->fd_shared_data_pool_.keep_number_ = 0;
-  for (int i = 0; i < 3; i++) { int p[2]; if (cfg >= 2 && i == 0) { socketpair(AF_UNIX, SOCK_STREAM | SOCK_NONBLOCK, 0, p); w.rd[i] = p[0]; w.wr[i] = p[1]; } else { pipe2(p, O_NONBLOCK); w.rd[i] = p[0]; w.wr[i] = p[1]; } }
+  for (int i = 0; i < 3; i++) { int p[2]; if (cfg >= 2 && cfg <= 4 && i == 0) { socketpair(AF_UNIX, SOCK_STREAM | SOCK_NONBLOCK, 0, p); w.rd[i] = p[0]; w.wr[i] = p[1]; } else { pipe2(p, O_NONBLOCK); w.rd[i] = p[0]; w.wr[i] = p[1]; } }
   for (int e = 0; e < NE; e++) make_event(w, sc, e, CFG[cfg][e].d, CFG[cfg][e].mask, CFG[cfg][e].oneshot);
   w.alive[NE] = false; w.ev[NE] = nullptr; w.en[NE] = false;
   try {
@@ -98,7 +103,7 @@ static std::string run_engine(const char *eng, int cfg, const Script &sc, const 
 int main(int argc, char **argv) {
   int cfg = argc > 1 ? atoi(argv[1]) : 0; size_t depth = argc > 2 ? atoi(argv[2]) : 4; int s0 = argc > 3 ? atoi(argv[3]) : 0, s1 = argc > 4 ? atoi(argv[4]) : 1000;
   std::vector<Script> scripts; scripts.push_back({0, NONE, 0});
-  for (int e = 0; e < NE; e++) { scripts.push_back({e, DIS_SELF, e}); for (int t = 0; t < NE; t++) if (t != e) for (int a : {DIS_TGT, DESTROY_TGT, ENABLE_TGT, DESTROY_TGT_NEW, DESTROY_TGT_CLOSE}) scripts.push_back({e, a, t}); }
+  for (int e = 0; e < NE; e++) { scripts.push_back({e, DIS_SELF, e}); for (int t = 0; t < NE; t++) if (t != e) for (int a : {DIS_TGT, DESTROY_TGT, ENABLE_TGT, DESTROY_TGT_NEW, DESTROY_TGT_CLOSE, DIS_TGT_EN_THIRD, DESTROY_TGT_EN_THIRD}) scripts.push_back({e, a, t}); }
   signal(SIGPIPE, SIG_IGN);
   double deadline = hx::deadline_from_env(600); size_t S = 0, T = 0;
   for (int si = s0; si < (int)scripts.size() && si <= s1; si++) {
